@@ -19,7 +19,13 @@ def run(ctx):
         "list-level run (history_refines)",
         "BumpVec::map (contents, order, documented capacity cap*size_of<T>/size_of<U> in place resp. len on the fallback path: vec_map_refines) "
         "and into_flattened (Props/C16) are modelled, proved and replayed in the split profile",
-        "std-differential oracle only (not modelled): MutBumpVecRev::resize (proved for C06 only)",
+        "shrink_to (model shrinkTo + shrink_to_keeps), Extend::extend with honest / under- / over-reporting / overflowing size_hint "
+        "(extendIter + extend_refines), push_with (push_with_refines) modelled + proved + replayed; the try_ twins and push_mut / insert_mut / "
+        "dedup() run through the same model operations (the reference returned by *_mut is checked to point at the new slot); after shrinking "
+        "operations and now and then otherwise ANOTHER block is allocated from the vector's arena and the contents are re-read",
+        "std-differential / accounting oracle only (profile split, coll_inc/misc.rs): into_boxed_slice, into_fixed_vec, into_slice, "
+        "from_elem_in, from_iter_in, from_iter_exact_in, from_owned_slice_in, extend_from_slice_copy, extend_from_within_copy; "
+        "MutBumpVecRev::resize (proved for C06 only)",
         "capacity of MutBumpVec / MutBumpVecRev after growth is an observed input of the model (the arena decides); `cap >= promised` for them is an oracle check",
         "zero-sized element types (capacity usize::MAX, lengths) by oracle only",
     ]
